@@ -1025,7 +1025,7 @@ def blockStepD (acc : List Block × DegEnv × Bool) (b : Block) : List Block × 
   if c then (bs ++ [b], env, true)
   else
     let (ss, env', c') := b.stmts.foldl passStepD ([], env, false)
-    (bs ++ [{ stmts := ss }], env', c')
+    (bs ++ [{ b with stmts := ss }], env', c')
 
 theorem degPass_eq (env : DegEnv) (bs : List Block) : degPass env bs = bs.foldl blockStepD ([], env, false) := rfl
 
@@ -1151,7 +1151,7 @@ theorem blocks_foldD (E : List Stmt) (ps : List VName) (fn : Bool) (wf : WfD E p
     | false =>
       simp only [List.foldl_cons]
       have hstep : blockStepD (done, env, false) b =
-          (done ++ [{ stmts := (b.stmts.foldl passStepD ([], env, false)).1 }],
+          (done ++ [{ b with stmts := (b.stmts.foldl passStepD ([], env, false)).1 }],
             (b.stmts.foldl passStepD ([], env, false)).2.1, (b.stmts.foldl passStepD ([], env, false)).2.2) := rfl
       rw [hstep]
       have hsplit : (stmtsOf (b :: r)).map eraseS = b.stmts.map eraseS ++ (stmtsOf r).map eraseS := by
@@ -1160,7 +1160,7 @@ theorem blocks_foldD (E : List Stmt) (ps : List VName) (fn : Bool) (wf : WfD E p
       obtain ⟨pos1, pos2⟩ := posOK_append E _ _ pre hpos
       obtain ⟨M₁, Done₁, g1, g2, g3, g4, g5⟩ := stmts_foldD E ps fn wf b.stmts [] env false M Done pre h
         (by intro t ht; simp at ht) hb pos1 hpre
-      obtain ⟨M', Done', h1, h2, h3, h4⟩ := ih (done ++ [{ stmts := (b.stmts.foldl passStepD ([], env, false)).1 }])
+      obtain ⟨M', Done', h1, h2, h3, h4⟩ := ih (done ++ [{ b with stmts := (b.stmts.foldl passStepD ([], env, false)).1 }])
         (b.stmts.foldl passStepD ([], env, false)).2.1 (b.stmts.foldl passStepD ([], env, false)).2.2 M₁ Done₁
         (pre ++ b.stmts.map eraseS) g2
         (by
